@@ -30,7 +30,7 @@ func baseline() string {
 		if stage != "ok" {
 			panic(fmt.Sprintf("empty application does not compile: %s %v", stage, err))
 		}
-		sysBaseline = d.SysDigest
+		sysBaseline = d.SysDigestCanon
 	}
 	return sysBaseline
 }
@@ -50,14 +50,14 @@ func observe(texts []PkgText) Observed {
 	d2, stage2, _ := Compile(texts)
 	o.Dump = &d1
 	o.Deterministic = stage2 == "ok" && reflect.DeepEqual(canon(d1), canon(d2))
-	o.SysUnchanged = d1.SysDigest == baseline()
+	o.SysUnchanged = d1.SysDigestCanon == baseline()
 	return o
 }
 
 // the order of the rules one statement expands to depends on Go map order: two compilations are
 // compared with each ACL sorted
 func canon(d Dump) Dump {
-	c := Dump{SysDigest: d.SysDigest}
+	c := Dump{SysDigest: d.SysDigestCanon, SysDigestCanon: d.SysDigestCanon}
 	for _, it := range d.Items {
 		if len(it.ACL) > 0 {
 			acl := append([]DRule{}, it.ACL...)
